@@ -134,6 +134,9 @@ func (vc *VC) leafRead(st *State, p place, sub string, s Sort) string {
 
 func (vc *VC) leafWrite(st *State, p place, sub string, s Sort, val string) {
 	name, hs, idx := vc.leafHeap(p, sub, s)
+	if monotoneFlags[name] && !vc.specMode && vc.dry == 0 {
+		vc.oblige(st, "lock", "monotone", vc.curPos, or(val, vc.freshRef(p.ref)), "the flag "+name+" is only ever set (other goroutines rely on it staying set)")
+	}
 	vc.accessHook(st, p, sub, true)
 	h := vc.heapGet(st, name, hs)
 	var nt string
@@ -988,7 +991,44 @@ func (vc *VC) alloc(st *State, what string) string {
 	al := vc.heapGet(st, "alloc", ArrSort(SRef, SBool))
 	vc.assume(st, and(not(eq(r, "nil")), not(sel(al, r))))
 	vc.heapSet(st, "alloc", ArrSort(SRef, SBool), store(al, r, "true"))
+	vc.assumeUnreachable(st, r, false)
 	return r
+}
+
+// assumeUnreachable: no reference stored in the heap (fields, map values, slice elements) points to r.
+// mapsOnly: only map values (used for objects taken from a sync.Pool, A-POOL: pooled entries have left
+// every shard map).
+func (vc *VC) assumeUnreachable(st *State, r string, mapsOnly bool) {
+	save := vc.curLabel
+	vc.curLabel = "alloc.unreachable"
+	for _, h := range sortedKeys(boolKeysSort(vc.heapSort)) {
+		srt := string(vc.heapSort[h])
+		cur, ok := st.heap[h]
+		if !ok {
+			cur, ok = vc.baseHeap[h]
+		}
+		if !ok || strings.HasPrefix(cur, "?havoc") {
+			continue
+		}
+		switch {
+		case srt == "(Array Ref Ref)" && mapsOnly:
+		case strings.HasPrefix(srt, "(Array Ref (Array ") && mapsOnly && !strings.HasPrefix(h, "mapval<"):
+		case srt == "(Array Ref Ref)":
+			vc.assume(st, fmt.Sprintf("(forall ((x?al Ref)) (! (not (= (select %s x?al) %s)) :pattern ((select %s x?al))))", cur, r, cur))
+		case strings.HasPrefix(srt, "(Array Ref (Array ") && strings.HasSuffix(srt, " Ref))"):
+			ks := strings.TrimSuffix(strings.TrimPrefix(srt, "(Array Ref (Array "), " Ref))")
+			vc.assume(st, fmt.Sprintf("(forall ((x?al Ref) (y?al %s)) (! (not (= (select (select %s x?al) y?al) %s)) :pattern ((select (select %s x?al) y?al))))", ks, cur, r, cur))
+		}
+	}
+	vc.curLabel = save
+}
+
+func boolKeysSort(m map[string]Sort) map[string]bool {
+	o := map[string]bool{}
+	for k := range m {
+		o[k] = true
+	}
+	return o
 }
 
 // assumeAllocated records that a reference obtained from a parameter or the heap is allocated (or nil).
